@@ -282,6 +282,14 @@ class M(Hooks):
                 facing.pop(j)
             inst.discards[i] = fs
 
+    def after(self, it, kind, args, result):
+        # a card dealt to a named player goes to that player
+        if kind == 'deal_hole' and len(args) == 2 and args[1] is not None \
+                and getattr(result, 'player_index', None) != args[1]:
+            self.v('named_dealee_ignored', '',
+                   f'deal_hole{args!r} dealt to player'
+                   f' {getattr(result, "player_index", None)}: {result!r}')
+
     def quiescent(self, it):
         if self.viol:
             return
